@@ -65,24 +65,26 @@ func loadProgram(repo string, contractsMode string) (*Program, error) {
 		if !strings.HasSuffix(p.PkgPath, "/v2") {
 			rel = p.Name
 		}
-		inRepo := filepath.Join(repo, rel, "contracts_verif.go")
-		mirror := filepath.Join(verifDir(), "contracts", rel, "contracts_verif.go")
-		pick := ""
+		// contract files: contracts_verif.go and contracts_verif_*.go (comment-only, build tag verif)
+		inRepo, _ := filepath.Glob(filepath.Join(repo, rel, "contracts_verif*.go"))
+		mirror, _ := filepath.Glob(filepath.Join(verifDir(), "contracts", rel, "contracts_verif*.go"))
+		var pick []string
 		switch contractsMode {
 		case "mirror":
 			pick = mirror
 		case "repo":
 			pick = inRepo
 		default:
-			if _, err := os.Stat(inRepo); err == nil {
+			if len(inRepo) > 0 {
 				pick = inRepo
 			} else {
 				pick = mirror
 			}
 		}
-		if _, err := os.Stat(pick); err == nil {
-			files = append(files, pick)
-			source += pick + " "
+		sort.Strings(pick)
+		for _, f := range pick {
+			files = append(files, f)
+			source += f + " "
 		}
 	}
 	cs, err := ParseContracts(files)
